@@ -158,6 +158,21 @@ def random_config(r, max_text=40, max_hits=14, n_texts=6, self_repro=False):
             else:
                 hit = (typ, b"zw", "zero-width", s, s, ())
             tables[r.randrange(ndec)].setdefault(text, []).append(hit)
+    if max_text >= 200 and len(texts[0]) >= 170:
+        # decodings that leave a long prefix of the covered text unchanged and shorten it near the end, with raw hits in
+        # the tail of the encoded span (a 'decoded?' test that looks at a prefix only would take them for contexts)
+        text = texts[0]
+        n = len(text)
+        s0 = r.randint(0, 10)
+        e0 = r.randint(n - 8, n)
+        cov = text[s0:e0]
+        cut = r.randint(max(135, len(cov) - 25), len(cov) - 2)
+        val = cov[:cut] + cov[cut + 1:] if r.random() < 0.5 else cov[: len(cov) - r.randint(1, 15)]
+        tables[r.randrange(ndec)].setdefault(text, []).append(("trim", val, "shortened", s0, e0, ()))
+        for _ in range(r.randint(1, 3)):
+            a0 = r.randint(max(s0, e0 - 20), e0 - 1)
+            b0 = r.randint(a0 + 1, e0)
+            tables[r.randrange(ndec)].setdefault(text, []).append(("tail", text[a0:b0], "", a0, b0, ()))
     if self_repro:
         # every decoded value can be decoded again, forever
         d = tables[0]
